@@ -619,7 +619,7 @@ def items(src_root, tier):
     out = [('elem', t) for t in ELEM_TYPES]
     out += [('array', t) for t in array_elem_types()]
     out += [('msg', q) for q in sorted(LAYOUT['messages'])]
-    # obfuscation: see C01_obf (added as its own item when present)
+    out += [('obf', p) for p in ('rotate_key', 'encode', 'decode', 'connection')]
     return out
 
 
@@ -638,7 +638,7 @@ def run_item(src_root, item, tier):
             prove_message(src_root, arg, ex, res.notes)
         elif kind == 'obf':
             from contracts import C01_obf
-            C01_obf.prove(src_root, ex, res)
+            C01_obf.prove(src_root, ex, res, arg)
     except Unsupported as e:
         res.errors.append(f'{kind}:{arg}: unsupported: {e}')
     res.add(ex.obligations)
